@@ -122,7 +122,7 @@ def verify(name, all_checks=False, tier="quick", before=False):
         shutil.rmtree(wt, ignore_errors=True)
 
 
-def recheck(name, tier="quick"):
+def recheck(name, tier="quick", props=None):
     """Fast regression: scratch copy of /repo/src with the patch applied, the property's own check pointed at it (no demo, no test
     suite - those were confirmed when the change was harvested).  Updates checks[<property>] in meta.json."""
     d = VERIF / "seeded" / name
@@ -136,10 +136,18 @@ def recheck(name, tier="quick"):
             print(name, "PATCH-DOES-NOT-APPLY", r.stdout[-200:])
             return
         e = dict(os.environ, BLDFM_VERIF_SRC=tmp + "/src", VERIF_EVIDENCE_DIR=tmp + "/ev", VERIF_REPLAY_DIR=tmp + "/rp")
-        t0 = time.time()
-        c = sh([str(VERIF / "check"), prop, "--tier", tier], env=e, cwd=VERIF, timeout=3600)
-        whats = sorted({l.split('"what": "')[1].split('"')[0] for l in c.stdout.splitlines() if '"what": "' in l})
-        meta.setdefault("checks", {})[prop] = {"exit": c.returncode, "violations": whats[:6], "seconds": round(time.time() - t0)}
+        for pid in (props or [prop]):
+            t0 = time.time()
+            c = sh([str(VERIF / "check"), pid, "--tier", tier], env=e, cwd=VERIF, timeout=3600)
+            whats = sorted({l.split('"what": "')[1].split('"')[0] for l in c.stdout.splitlines() if '"what": "' in l})
+            meta.setdefault("checks", {})[pid] = {"exit": c.returncode, "violations": whats[:6], "seconds": round(time.time() - t0)}
+            if pid != prop:
+                print(name, "other check", pid, {0: "MISSED", 1: "caught", 2: "INCONCLUSIVE"}.get(c.returncode, c.returncode), whats[:3])
+        if prop not in (props or [prop]):
+            (d / "meta.json").write_text(json.dumps(meta, indent=1) + "\n")
+            return
+        c = type("R", (), {"returncode": meta["checks"][prop]["exit"]})
+        whats = meta["checks"][prop]["violations"]
         meta["caught_by_own_check"] = c.returncode == 1
         meta["rechecked_against_repo_commit"] = sh(["git", "-C", "/repo", "log", "--format=%h", "-1"]).stdout.strip()
         (d / "meta.json").write_text(json.dumps(meta, indent=1) + "\n")
@@ -169,6 +177,6 @@ if __name__ == "__main__":
         tier = a[a.index("--tier") + 1] if "--tier" in a else "quick"
         verify(a[1], "--all-checks" in a, tier, "--before" in a)
     elif a[0] == "recheck":
-        recheck(a[1], a[a.index("--tier") + 1] if "--tier" in a else "quick")
+        recheck(a[1], a[a.index("--tier") + 1] if "--tier" in a else "quick", a[a.index("--checks") + 1].split(",") if "--checks" in a else None)
     elif a[0] == "table":
         table()
